@@ -31,7 +31,8 @@ func (f *FT) coerce(v Val, want Kind, at ast.Node) (Val, error) {
 			return Val{T: "(" + v.T + ")%Z", K: want}, nil
 		}
 	case "nil":
-		if z, err := f.zero(want); err == nil && (want == "err" || want == "hdrs" || strings.HasPrefix(want, "ptr:")) {
+		_, isList := f.ps.Lists[want]
+		if z, err := f.zero(want); err == nil && (want == "err" || want == "hdrs" || isList || strings.HasPrefix(want, "ptr:")) {
 			return Val{T: z, K: want}, nil
 		}
 	}
@@ -169,7 +170,36 @@ func (f *FT) expr0(e ast.Expr, env *Env, want Kind) (Val, error) {
 }
 
 func (f *FT) composite(cl *ast.CompositeLit, env *Env) (Val, error) {
-	id, ok := cl.Type.(*ast.Ident)
+	if at, isArr := cl.Type.(*ast.ArrayType); isArr && at.Len == nil {
+		lk := f.kindOfType(cl.Type)
+		ek, isList := f.ps.Lists[lk]
+		if lk == "hdrs" {
+			ek, isList = "hdr", true
+		}
+		if !isList {
+			return Val{}, f.errAt(cl, "slice literal of type %s", f.src(cl.Type))
+		}
+		var ts []string
+		for _, el := range cl.Elts {
+			if _, isKV := el.(*ast.KeyValueExpr); isKV {
+				return Val{}, f.errAt(cl, "keyed slice literal")
+			}
+			v, err := f.expr(el, env, ek)
+			if err != nil {
+				return v, err
+			}
+			ts = append(ts, v.T)
+		}
+		return Val{T: "[" + strings.Join(ts, "; ") + "]", K: lk}, nil
+	}
+	var id *ast.Ident
+	switch t := cl.Type.(type) {
+	case *ast.Ident:
+		id = t
+	case *ast.SelectorExpr:
+		id = t.Sel
+	}
+	ok := id != nil
 	if !ok {
 		return Val{}, f.errAt(cl, "composite literal of type %s", f.src(cl.Type))
 	}
@@ -501,24 +531,32 @@ func (f *FT) call(c *ast.CallExpr, env *Env, want Kind) (Val, error) {
 		if len(c.Args) != 2 {
 			return Val{}, f.errAt(c, "append with %d arguments", len(c.Args))
 		}
-		l, err := f.expr(c.Args[0], env, "hdrs")
+		l, err := f.expr(c.Args[0], env, "")
 		if err != nil {
 			return l, err
 		}
+		ek, isList := f.ps.Lists[l.K]
+		if l.K == "hdrs" {
+			ek, isList = "hdr", true
+		}
+		if !isList {
+			return l, f.errAt(c, "append to a value of kind %s", l.K)
+		}
 		if c.Ellipsis.IsValid() {
-			r, err := f.expr(c.Args[1], env, "hdrs")
+			r, err := f.expr(c.Args[1], env, l.K)
 			if err != nil {
 				return r, err
 			}
-			return Val{T: "(" + paren(l.T) + " ++ " + paren(r.T) + ")", K: "hdrs"}, nil
+			return Val{T: "(" + paren(l.T) + " ++ " + paren(r.T) + ")", K: l.K}, nil
 		}
-		r, err := f.expr(c.Args[1], env, "hdr")
+		r, err := f.expr(c.Args[1], env, ek)
 		if err != nil {
 			return r, err
 		}
-		return Val{T: "(" + paren(l.T) + " ++ [" + r.T + "])", K: "hdrs"}, nil
+		return Val{T: "(" + paren(l.T) + " ++ [" + r.T + "])", K: l.K}, nil
 	case "make":
-		if f.kindOfType(c.Args[0]) != "hdrs" {
+		mk := f.kindOfType(c.Args[0])
+		if _, isList := f.ps.Lists[mk]; mk != "hdrs" && !isList {
 			return Val{}, f.errAt(c, "make of %s", f.src(c.Args[0]))
 		}
 		// a length other than the constant 0 would create zero headers; capacity is evaluated for its panics only
@@ -526,13 +564,50 @@ func (f *FT) call(c *ast.CallExpr, env *Env, want Kind) (Val, error) {
 			return Val{}, f.errAt(c, "make with a non-zero length")
 		}
 		if len(c.Args) == 3 {
-			if _, err := f.expr(c.Args[2], env, "i64"); err != nil {
-				if _, err2 := f.expr(c.Args[2], env, "u64"); err2 != nil {
+			// the capacity: a len(...) or a constant cannot be out of range; anything else
+			// needs the allocation limit as an explicit argument ("@maxcap")
+			capE := c.Args[2]
+			isLen := false
+			if in, ok := capE.(*ast.CallExpr); ok && f.norm(in.Fun) == "len" {
+				isLen = true
+			}
+			if _, isLit := capE.(*ast.BasicLit); isLen || isLit {
+				if _, err := f.expr(capE, env, "i64"); err != nil {
 					return Val{}, err
 				}
+			} else {
+				mc, ok := f.argByPath("@maxcap")
+				if !ok {
+					return Val{}, f.errAt(c, "make with a computed capacity and no allocation limit (@maxcap) in spec.json")
+				}
+				cv, err := f.expr(capE, env, "")
+				if err != nil {
+					return Val{}, err
+				}
+				switch cv.K {
+				case "u64":
+				case "i64":
+					cv = Val{T: "gen_u64 " + paren(cv.T), K: "u64"} // a negative capacity panics as well: it is above every limit as a uint64
+				default:
+					return Val{}, f.errAt(c, "capacity of kind %s", cv.K)
+				}
+				f.guards = append(f.guards, guard{"_", "gen_capok " + mc.T + " " + paren(cv.T)})
 			}
 		}
-		return Val{T: "[]", K: "hdrs"}, nil
+		return Val{T: "[]", K: mk}, nil
+	case "errors.Is":
+		if f.ps.ErrorsIs == "" || len(c.Args) != 2 {
+			return Val{}, f.errAt(c, "errors.Is is not in the symbol table")
+		}
+		a, err := f.expr(c.Args[0], env, "err")
+		if err != nil {
+			return a, err
+		}
+		b, err := f.expr(c.Args[1], env, "err")
+		if err != nil {
+			return b, err
+		}
+		return Val{T: subst(f.ps.ErrorsIs, "", []string{a.T, b.T}), K: "bool"}, nil
 	case "errors.New":
 		return f.opaqueErr(c, "errors.New")
 	case "fmt.Errorf":
